@@ -680,6 +680,62 @@ def bounded_text_roundtrip(reg, tier, seed):
                         clause = "a float field holding inf/nan on the wire must survive the text round trip"
                     fail(key, clause, dict(inp, text=str(txt)[:1500]), observed)
 
+        def run_edit_case(m, label):
+            """render, edit a field that has a pretty-printed form, render again: the second text is that of the edited message"""
+            nonlocal evals
+            import hippolyzer.lib.base.serialization as se__
+            try:
+                m2 = rt.de.deserialize(rt.ser.serialize(m))
+                _ = m2.blocks
+            except Exception:  # noqa
+                return
+            m2.direction = m.direction
+            target = None
+            for bname, blist in m2.blocks.items():
+                for bl in blist:
+                    for var, cur in list(bl.vars.items()):
+                        ser_ = se__.SUBFIELD_SERIALIZERS.get((m2.name, bname, var))
+                        if ser_ is None or not isinstance(cur, int) or isinstance(cur, bool):
+                            continue
+                        for cand in (0, 1, 2, 3, 4):
+                            try:
+                                if cand != cur and int(ser_.serialize(bl, ser_.deserialize(bl, cand, pod=True))) == cand \
+                                        and int(ser_.serialize(bl, ser_.deserialize(bl, cur, pod=True))) == cur:
+                                    target = (bl, var, cand)
+                                    break
+                            except Exception:  # noqa
+                                continue
+                        if target:
+                            break
+                    if target:
+                        break
+                if target:
+                    break
+            if not target:
+                return
+            kind, table = replacement_tables(m2, rng)[0]
+            evals += 1
+            fs1, _t1 = rt.check(m2, True, kind, table, False)
+            if fs1:
+                return          # the first rendering is the other cases' subject
+            bl, var, cand = target
+            bl[var] = cand
+            evals += 1
+            fs2, text2 = rt.check(m2, True, kind, table, False)
+            seen.add((m.name, label, "edit", var, cand))
+            for key, clause, observed, txt in fs2:
+                fail("text-roundtrip/after-edit", "the text shown for a message that was edited after an earlier rendering parses back to the edited message",
+                     {"message": m.name, "case": label, "edited": f"{var} = {cand}", "text": str(txt)[:1200]}, observed)
+
+        for mn_ in ("ChatFromViewer", "ChatFromSimulator", "ViewerEffect", "ObjectUpdate", "ScriptDialog", "ObjectAdd", "AgentUpdate", "ParcelProperties"):
+            t_ = next((x for x in tmpls if x.name == mn_), None)
+            if t_ is None:
+                continue
+            for _k in range(3 if tier == "quick" else 20):
+                try:
+                    run_edit_case(gen_message(t_, rng, False, "one", subfields=True, stats=stats), "edit")
+                except Exception as e:  # noqa
+                    fail("text-roundtrip/generator", "driver could not build a message", {"message": mn_}, repr(e))
         # pinned sub-format payloads (byte constants): terse object updates for a prim and an avatar whose quantised rotation has every
         # sign pattern, W in the lower half of its range included
         from hippolyzer.lib.base.message.message import Message as _Msg, Block as _Blk
